@@ -534,6 +534,37 @@ func init() {
 								}
 							}
 						}
+						// ... and the builder must walk the parsed TREES (every symbol node of every
+						// expression, by recursion over .Cells), not the analysis results: a symbol the
+						// analysis does not resolve (a template symbol, a macrolet body) is still a name
+						// the program uses
+						if bfn := originOf(Callee(info, dc)); bfn != nil && fromInput {
+							if bfd := c.declOf[bfn]; bfd != nil && bfd.Body != nil {
+								binfo := c.pkgOf[bfd].TypesInfo
+								readsExprs, readsCells, readsStr, readsAnalysis := false, false, false, false
+								ast.Inspect(bfd.Body, func(n ast.Node) bool {
+									if se, ok := n.(*ast.SelectorExpr); ok {
+										switch se.Sel.Name {
+										case "exprs":
+											readsExprs = true
+										case "Cells":
+											readsCells = true
+										case "Str":
+											readsStr = true
+										case "analysis":
+											readsAnalysis = true
+										}
+									}
+									return true
+								})
+								_ = binfo
+								if !(readsExprs && readsCells && readsStr) || readsAnalysis {
+									fromInput = false
+								}
+							} else {
+								fromInput = false
+							}
+						}
 					}
 				}
 				switch {
